@@ -582,6 +582,8 @@ where
         output.on_conn_error(error);
         input.on_conn_error(error);
         listener.on_conn_error(error);
+        // tasks parked on the stream limit have to see the error too
+        self.stream_ids.local.wake_all();
     }
 }
 
